@@ -30,10 +30,29 @@ def main():
         return mod.run(a.tier)
     except vlib.MachineryError as e:
         print("MACHINERY-ERROR %s: %s" % (pid, e), file=sys.stderr)
-        return 2
-    except Exception:
+        return after_failure(str(e))
+    except Exception as e:
         traceback.print_exc()
-        return 2
+        return after_failure(repr(e))
+
+
+def after_failure(msg):
+    """A machinery failure is never a verdict (exit 2) - but violations that were already established before it
+    (replay differences, traces rejected by TLC) are not thrown away with it: a changed tree can make a later
+    stage fail in the tooling (seed C18-12 did: an out-of-range integer in a trace operator) after earlier stages
+    had already rejected its behaviour."""
+    ck = vlib.CURRENT
+    if ck is not None and ck.violations and not a_replay():
+        ck.notes["machinery_error_after_violations"] = msg[:600]
+        try:
+            return ck.finish()
+        except Exception:
+            traceback.print_exc()
+    return 2
+
+
+def a_replay():
+    return "--replay" in sys.argv
 
 
 if __name__ == "__main__":
